@@ -489,14 +489,42 @@ def c04(prop, tier, seed, work):
 CHECKS["C04"] = c04
 
 
+def refs_gc_programs(seed):
+    """Directed histories for nested referrers under the most aggressive collection policy: a4 (referrer of a subject that never
+    exists) is also the child of the index a12 (a referrer of m1, which is not pushed); a1 is a tagged referrer of m1."""
+    import itertools
+    def blob(b):
+        return {"op": "PushBlob", "repo": "r1", "dig": "sha256:" + b, "chunk": {"c": b, "p": "all"}, "which": "chunked", "alg": ""}
+    def put(c, ref, ct):
+        return {"op": "ManPut", "repo": "r1", "ref": ref, "ctype": ct, "ctvar": "", "body": c, "lenKnown": True, "dparam": ""}
+    def dig(c):
+        return {"k": "dig", "v": "sha256:" + c}
+    pushes = {"a4": put("a4", dig("a4"), "oci.image"), "a12": put("a12", dig("a12"), "oci.index"), "a1": put("a1", {"k": "tag", "v": "t1"}, "oci.image")}
+    progs, k = [], 0
+    for order in (("a4", "a12", "a1"), ("a4", "a1", "a12"), ("a1", "a4", "a12")):
+        for ws in (True, False):
+            for tail in ([], [{"op": "ManDel", "repo": "r1", "ref": {"k": "tag", "v": "t1"}}, {"op": "GC", "repo": "r1"}]):
+                ops = [blob("b1"), blob("b2")] + [pushes[c] for c in order] + [{"op": "GC", "repo": "r1"}, {"op": "GC", "repo": "r1"}] + tail + [{"op": "Restart"}]
+                cfg = dict(DEFAULT_CFG, untagged=True, dangling=True, withSubj=ws, grace=False, emptyRepo=False)
+                progs.append({"id": "refsgcD-%d" % k, "cfg": cfg, "contents": ["m1", "a1", "a4", "a12"], "algs": ["sha256"], "ntags": 2, "repos": ["proj/app"], "seed": k,
+                              "tagstyle": 0, "pre": "", "sentinel": False, "ops": ops, "stores": ["mem", "dir"]})
+                k += 1
+    return progs
+
+
 def c07(prop, tier, seed, work):
     scs = [
+        dict(name="refsgcD", static_programs=refs_gc_programs, obs=["refs"]),
         dict(name="refs", profile="refs", contents=["m1", "m2", "x1", "a1", "a2", "a3", "a4", "a5", "a6", "a7"], algs=["sha256"], depth=(24, 40), num=(30, 300),
              stores=STORES3, obs=["refs", "filters"], mc_contents=["m1", "a1", "a2"], mc_depth=(4, 5), nrepos=1),
         dict(name="refsgc", profile="gcrefs", contents=["m1", "m2", "a1", "a2", "a3", "a4", "a7"], algs=["sha256"], depth=(24, 40), num=(12, 150),
              stores=["mem", "dir"], obs=["refs"], nrepos=1, cfg={"withSubj": True, "emptyRepo": False}),
         dict(name="refsgc2", profile="gcrefs", contents=["m1", "a1", "a2"], algs=["sha256"], depth=(20, 30), num=(15, 150),
              stores=["mem", "dir"], obs=["refs"], nrepos=1, cfg={"withSubj": True, "emptyRepo": False}),
+        # a referrer (a4, subject never exists) that is also the child of an index referrer (a12) of another subject, next to a
+        # tagged referrer of that subject: under the most aggressive policy the responses are kept through several rounds
+        dict(name="refsgc3", profile="gcrefs2", contents=["m1", "a1", "a4", "a12"], algs=["sha256"], depth=(18, 28), num=(24, 200),
+             stores=["mem", "dir"], obs=["refs"], nrepos=1, cfg={"untagged": True, "dangling": True, "withSubj": True, "grace": False, "emptyRepo": False}),
         dict(name="refspage1", profile="refs", contents=["m1", "a1", "a2", "a5", "a9"], algs=["sha256"], depth=(22, 36), num=(10, 120),
              stores=["mem", "dir"], obs=["refs", "filters"], nrepos=1, cfg={"refLimit": 600}),
         dict(name="refspage2", profile="refs", contents=["m1", "a1", "a2", "a5", "a9"], algs=["sha256"], depth=(22, 36), num=(10, 120),
@@ -1456,6 +1484,13 @@ GC_EPISODES = [
 ]
 
 
+# a long tag list read while entries are removed from its front; every other random schedule releases two store calls at once
+TOGETHER_EPISODES = [
+    ("s5", [("Del", "m2"), ("Tags",), ("Tags",)]), ("s5", [("Del", "none", "t1"), ("Del", "m2"), ("Tags",)]),
+    ("s5", [("Del", "m2"), ("Get", "none", "t24"), ("Tags",)]),
+]
+
+
 def free_episode(setup, reqs, gcon=False):
     out = []
     for r in reqs:
@@ -1544,6 +1579,7 @@ def c11(prop, tier, seed, work):
     nmodel = len(episodes)
     episodes += [free_episode(s, r) for s, r in FREE_EPISODES] * (2 if quick else 8)
     episodes += [free_episode(s, r, gcon=True) for s, r in GC_EPISODES] * (3 if quick else 10)
+    episodes += [dict(free_episode(s, r), together=True) for s, r in TOGETHER_EPISODES] * (6 if quick else 30)
     x = conc_run(work, vh, episodes, "main", "mem,dir" if quick else "mem,dir,memdir", 1 if quick else 2, seed, burst=4 if quick else 6)
     log("%d episodes (%d with a TLC schedule), %d runs, %d rejected, %d drift, %d hung (exec %.1fs, tlc %.1fs)" % (len(episodes), nmodel, x["runs"], len(x["rejected"]), len(x["drift"]), x["hung"], x["exec"], x["tlc"]))
     violations = []
